@@ -147,6 +147,19 @@ fn cases(thorough: bool) -> Vec<Case> {
             }
         }
     }
+    // far beyond the pipe capacity (1024 bytes in the simulator): 10x, 20x, 64 KiB + 1
+    let big: &[usize] = if thorough { &[10240, 20000, 65537] } else { &[10240] };
+    for &n in big {
+        for &(t, e) in &[(0usize, 0usize), (2, 0)] {
+            let data = payload(n, t, e);
+            let val = strip_nl(data.clone());
+            let g = format!("gen {n} {t} {e}");
+            out.push(Case { script: format!("{g} | hsink 4096"), expected: m(vec![("M.2", hs(&data))]), size: n });
+            out.push(Case { script: format!("{g} | cat 700 | hsink 300"), expected: m(vec![("M.3", hs(&data))]), size: n });
+            out.push(Case { script: format!("x=$({g}); chk \"$x\""), expected: m(vec![("M", ck(&val))]), size: n });
+            out.push(Case { script: format!("x=$({g} | cat 4096); chk \"$x\""), expected: m(vec![("M", ck(&val))]), size: n });
+        }
+    }
     out
 }
 
@@ -225,6 +238,8 @@ pub fn run(tier: Tier) -> i32 {
         let mut phases: Vec<Explore> = vec![];
         if c.size <= 1025 {
             phases.push(Explore { max_dev: usize::MAX, taps: false, cap_runs: tier.pick(800, 8000) });
+        } else if c.size > 4096 {
+            phases.push(Explore { max_dev: 1, taps: false, cap_runs: tier.pick(800, 8000) });
         } else {
             phases.push(Explore { max_dev: tier.pick(2, 3), taps: false, cap_runs: tier.pick(800, 8000) });
         }
@@ -298,7 +313,7 @@ pub fn run(tier: Tier) -> i32 {
         "cases_with_all_cooperative_schedules_explored": unbounded_complete.load(Relaxed),
         "cases_where_unbounded_search_was_capped_and_bound_2_completed_instead": capped.load(Relaxed),
         "executions_discarded_unrepresentable": discarded.load(Relaxed),
-        "explanation": "payload sizes around PIPE_BUF(512)/pipe capacity(1024) x trailing/embedded newlines x pipeline shapes/command substitutions/here-documents x reader buffer sizes; each case under all cooperative schedules (payload <= 1025 bytes) or deviation bound 2/3, plus syscall-tap preemption at deviation bound 1; oracle = byte-exact length+FNV hash at the consumer, exact trailing-newline removal for $( )",
+        "explanation": "payload sizes around PIPE_BUF(512)/pipe capacity(1024) x trailing/embedded newlines x pipeline shapes/command substitutions/here-documents x reader buffer sizes; each case under all cooperative schedules (payload <= 1025 bytes), deviation bound 2/3 (<= 4096 bytes) or 1 (10240, 20000, 65537 bytes), plus syscall-tap preemption at deviation bound 1; oracle = byte-exact length+FNV hash at the consumer, exact trailing-newline removal for $( )",
     });
     ctx.finish(cov, &["simulator constants PIPE_BUF=512, pipe capacity=1024", "probe built-ins gen/cat/hsink/chk are trusted"])
 }
